@@ -1651,6 +1651,12 @@ func (ex *Exec) alloc(st *State, v *Val, t types.Type) *Val {
 	if v != nil && v.Sh != nil {
 		ex.writeLoc(st, l, v)
 	}
+	if ex.eng.ownedTypes[typeKey(t)] {
+		// whoever allocates an object owns it
+		if g, ok := ex.eng.cs.Ghosts["owns"]; ok {
+			ex.writeLoc(st, ex.ghostLoc(g, []*Val{{S: ref}}), ex.boolVal("true"))
+		}
+	}
 	return &Val{Sh: ex.eng.sh.shapeOf(pt), T: pt, S: ref}
 }
 
